@@ -45,8 +45,7 @@ MC_PLAN = {
                 ("MCLayoutsC", "MethodSum", "XffOne", 5, "Ticks12J", 2, "Vals1"),
                 ("MCLayoutsC", "MethodSum", "XffOne", 3, "Ticks12", 2, "Vals1", 2)],      # batch points dated ahead of the clock
         "C02": [("MCLayoutsD", "MethodLast", "XffZero", 2, "Ticks12", 2, "Vals1"),
-                ("MCLayoutsQuick", "MethodsAll", "XffSet", 2, "Ticks12", 2, "Vals1"),
-                ("MCLayoutsF", "MethodSum", "XffFifths", 1, "Ticks1", 2, "Vals1")],
+                ("MCLayoutsQuick", "MethodsAll", "XffSet", 2, "Ticks12", 2, "Vals1")],
         "C03": [("MCLayoutsQuick", "MethodSum", "XffOne", 2, "Ticks12", 2, "Vals12"),
                 ("MCLayoutsQuick", "MethodSum", "XffOne", 1, "Ticks1", 2, "Vals1", 1)],
         "C04": [("MCLayoutsA", "MethodSum", "XffOne", 6, "Ticks1J", 1, "Vals1"),
@@ -68,7 +67,8 @@ MC_PLAN = {
                 ("MCLayoutsQuick", "MethodsAll", "XffSet", 3, "Ticks12", 2, "Vals12"),
                 ("MCLayouts3", "MethodsAll", "XffSet", 1, "Ticks1", 2, "Vals1"),
                 ("MCLayoutsB", "MethodsAll", "XffSet", 2, "Ticks12", 2, "Vals1"),
-                ("MCLayoutsE", "MethodsQuick", "XffSet", 1, "Ticks1", 2, "Vals1")],
+                ("MCLayoutsE", "MethodsQuick", "XffSet", 1, "Ticks1", 2, "Vals1"),
+                ("MCLayoutsF", "MethodSum", "XffFifths", 1, "Ticks1", 2, "Vals1")],
         "C03": [("MCLayoutsQuick", "MethodSum", "XffOne", 3, "Ticks12", 3, "Vals1"),
                 ("MCLayoutsQuick", "MethodSum", "XffOne", 3, "Ticks12", 2, "Vals12"),
                 ("MCLayoutsB", "MethodSum", "XffOne", 2, "Ticks12", 2, "Vals1"),
@@ -93,8 +93,8 @@ EXPORT_PLAN = {
                 ("MCLayoutsC", "MethodSum", "XffOne", 5, "Ticks12J", 2, "Vals1", 4, "all"),
                 ("MCLayoutsC", "MethodSum", "XffOne", 3, "Ticks12", 2, "Vals1", 2, "all", 2)],
         "C02": [("MCLayoutsD", "MethodsAll", "XffZero", 2, "Ticks12", 2, "Vals1", 4, "edges"),
-                ("MCLayoutsQuick", "MethodsAll", "XffOne", 2, "Ticks12", 2, "Vals12", 16, "edges"),
-                ("MCLayoutsF", "MethodSum", "XffFifths", 1, "Ticks1", 2, "Vals1", 4, "edges")],   # known fraction exactly at a non-dyadic xFilesFactor
+                ("MCLayoutsQuick", "MethodsAll", "XffOne", 2, "Ticks12", 2, "Vals1", 16, "edges"),
+                ("MCLayoutsG", "MethodSum", "XffThirds", 1, "Ticks1", 2, "Vals1", 8, "edges")],   # known fraction exactly at a non-dyadic xFilesFactor
         "C03": [("MCLayoutsQuick", "MethodSum", "XffOne", 2, "Ticks12", 2, "Vals12", 24, "edges"),
                 ("MCLayoutsD", "MethodSum", "XffOne", 2, "Ticks12", 2, "Vals1", 4, "edges")],
         "C04": [("MCLayoutsA", "MethodSum", "XffOne", 6, "Ticks1J", 1, "Vals1", 1, "states"),
